@@ -163,7 +163,10 @@ def _work_lift(res, p):
     from orquestra.quantum.circuits import _gates as G, _unitary_tools as UT
 
     n, gid, idx = p["n"], p["gid"], tuple(p["idx"])
-    res.fn(G.GateOperation.lifted_matrix, G.GateOperation.apply, UT._lift_matrix, UT._permutation_matrix, UT._lift_matrix_numpy, UT._lift_matrix_sympy)
+    try:  # evidence only: a renamed private helper must not break the check
+        res.fn(G.GateOperation.lifted_matrix, G.GateOperation.apply, UT._lift_matrix, UT._permutation_matrix, UT._lift_matrix_numpy, UT._lift_matrix_sympy)
+    except AttributeError:
+        pass
     op = CS.gate_by_id(gid)(*idx)
     symbolic = bool(op.gate.free_symbols)
     if not symbolic:
@@ -211,7 +214,10 @@ def _work_circ(res, p):
     from orquestra.quantum.runners import symbolic_simulator as SSim
 
     n, specs = p["n"], [tuple(s) for s in p["specs"]]
-    res.fn(CM.Circuit.to_unitary, CM.split_circuit, G.GateOperation.apply, WS.BaseWavefunctionSimulator.get_wavefunction, SSim.SymbolicSimulator._get_wavefunction_from_native_circuit)
+    try:  # evidence only: a renamed private helper must not break the check
+        res.fn(CM.Circuit.to_unitary, CM.split_circuit, G.GateOperation.apply, WS.BaseWavefunctionSimulator.get_wavefunction, SSim.SymbolicSimulator._get_wavefunction_from_native_circuit)
+    except AttributeError:
+        pass
     c = CS.circuit_from_spec(specs, n)
     if c.n_qubits != n:
         res.ob(1)
@@ -283,7 +289,10 @@ def _work_mpo(res, p):
     from orquestra.quantum.api import wavefunction_simulator as WS
 
     n, specs = p["n"], [tuple(s) for s in p["specs"]]
-    res.fn(WO.MultiPhaseOperation.apply, WS.BaseWavefunctionSimulator.get_wavefunction)
+    try:  # evidence only: a renamed private helper must not break the check
+        res.fn(WO.MultiPhaseOperation.apply, WS.BaseWavefunctionSimulator.get_wavefunction)
+    except AttributeError:
+        pass
     c = CS.circuit_from_spec(specs, n)
     res.nontrivial()
     P = Prover(res)
@@ -322,7 +331,10 @@ def _work_mpo(res, p):
 def _work_add(res, p):
     from orquestra.quantum.circuits import _circuit as CM
 
-    res.fn(CM.Circuit.__add__, CM._append_operation, CM._append_circuit)
+    try:  # evidence only: a renamed private helper must not break the check
+        res.fn(CM.Circuit.__add__, CM._append_operation, CM._append_circuit)
+    except AttributeError:
+        pass
     s1, n1, s2, n2 = [tuple(s) for s in p["s1"]], p["n1"], [tuple(s) for s in p["s2"]], p["n2"]
     c1 = CS.circuit_from_spec(s1, n1)
     res.nontrivial()
